@@ -81,6 +81,10 @@ func cmdCheck(args []string) {
 	if ps == nil {
 		fatal("no such property in props.json: %s", *prop)
 	}
+	// solving-strategy hints of an earlier run (optional; they only choose what is tried first)
+	if b, err := os.ReadFile(filepath.Join(*verifDir, "hints.json")); err == nil {
+		_ = json.Unmarshal(b, &hints)
+	}
 	var known []KnownFinding
 	if b, err := os.ReadFile(filepath.Join(*verifDir, "KNOWN_FINDINGS.json")); err == nil {
 		if err := json.Unmarshal(b, &known); err != nil {
@@ -148,6 +152,9 @@ func cmdCheck(args []string) {
 		}
 		if strings.HasPrefix(st, "pinned:") {
 			results = append(results, verifyPinned(P, strings.TrimPrefix(st, "pinned:")))
+		}
+		if strings.HasPrefix(st, "constants:") {
+			results = append(results, verifyConstants(*repo))
 		}
 	}
 
@@ -247,6 +254,19 @@ func cmdCheck(args []string) {
 			suffix = ""
 		}
 		fmt.Printf("VIOLATION property=%s replay=%s obligation=%s%s\n", *prop, rp, strings.ReplaceAll(v.Obl.Name, " ", "_"), suffix)
+	}
+	// strategies that worked in this run (merged into hints.json by tools/merge_hints.py)
+	newHints := map[string]hint{}
+	for _, r := range results {
+		for _, o := range r.Obls {
+			if o.Status == "unsat" && o.Stage > 0 && o.Solver != "" && o.Solver != "syntactic" {
+				newHints[o.Name] = hint{Stage: o.Stage, Solver: o.Solver}
+			}
+		}
+	}
+	if hb, err := json.Marshal(newHints); err == nil {
+		os.MkdirAll(filepath.Join(*verifDir, "out", "hints"), 0o755)
+		os.WriteFile(filepath.Join(*verifDir, "out", "hints", *prop+".json"), hb, 0o644)
 	}
 	ev.Wall = time.Since(t0).Seconds()
 	ev.Spec = ps
